@@ -514,14 +514,23 @@ def renameOne (o new : Str) (heap : List Scaffold) (sid : Nat) : List Scaffold :
 def renameIds (orig : Option Str) (new : Str) (heap : List Scaffold) (ids : List Nat) : R (List Scaffold) :=
   ids.foldlM (fun heap sid => PyRt.needArg orig >>= fun o => .ok (renameOne o new heap sid)) heap
 
-/-- one pass of `for orig, scffld_list in hap_set.items()`; the state is `(chr_names, heap_b)` -/
-def renameEntry (st : List Str × List Scaffold) (e : Option Str × List Nat) : R (List Str × List Scaffold) :=
-  PyRt.pop st.1 0 >>= fun pp => renameIds e.1 pp.1 st.2 e.2 >>= fun heap => .ok (pp.2, heap)
+/-- the state of the loop `for orig, scffld_list in hap_set.items()` in the translator's order (by type, then by name): `(heap_b, chr_names)`.
+    Everything below goes through `rnPack` / `rnNames` / `rnHeap`; a change of the tuple order is repaired here only. -/
+abbrev RnSt := List Scaffold × List Str
+@[reducible] def rnPack (names : List Str) (heap : List Scaffold) : RnSt := (heap, names)
+@[reducible] def rnNames (st : RnSt) : List Str := st.2
+@[reducible] def rnHeap (st : RnSt) : List Scaffold := st.1
+@[simp] theorem rnNames_pack (names : List Str) (heap : List Scaffold) : rnNames (rnPack names heap) = names := rfl
+@[simp] theorem rnHeap_pack (names : List Str) (heap : List Scaffold) : rnHeap (rnPack names heap) = heap := rfl
+
+/-- one pass of `for orig, scffld_list in hap_set.items()`; the state is `rnPack chr_names heap_b` -/
+def renameEntry (st : RnSt) (e : Option Str × List Nat) : R RnSt :=
+  PyRt.pop (rnNames st) 0 >>= fun pp => renameIds e.1 pp.1 (rnHeap st) e.2 >>= fun heap => .ok (rnPack pp.2 heap)
 
 /-- one pass of `for hap_set in self.data.values()` -/
 def renameHap (name : Str) (heap : List Scaffold) (hs : PyRt.HapSet) : R (List Scaffold) :=
   Gen.Imp.ChrGroup_multi_chr_list name (Int.ofNat hs.length) >>= fun names =>
-    hs.foldlM renameEntry (names, heap) >>= fun st => .ok st.2
+    hs.foldlM renameEntry (rnPack names heap) >>= fun st => .ok (rnHeap st)
 
 theorem name_chromosome_nf (heap_b : List Scaffold) (pre : Str) (n : Int) (data : PyRt.GData) :
     Gen.Imp.ChrGroup_name_chromosome heap_b pre n data = (data.map (fun kv => kv.2)).foldlM (renameHap (pre ++ intToStr n)) heap_b := by
@@ -541,7 +550,7 @@ theorem name_chromosome_nf (heap_b : List Scaffold) (pre : Str) (n : Int) (data 
         cases r <;> rfl
       · intro e st
         obtain ⟨orig, ids⟩ := e
-        obtain ⟨names, heap⟩ := st
+        obtain ⟨heap, names⟩ := st
         unfold renameEntry
         simp only []
         generalize PyRt.pop names 0 = r
@@ -607,7 +616,7 @@ theorem pop_zero_cons {α : Type} (x : α) (xs : List α) : PyRt.pop (x :: xs) 0
 
 /-- the middle loop: `chr_names` has (at least) one name per entry, so `pop(0)` never fails; the loop is the model's fold over the zip -/
 theorem foldlM_renameEntry (hs : PyRt.HapSet) (hn : HapNamed hs) (names : List Str) (hl : hs.length ≤ names.length) (heap : List Scaffold) :
-    hs.foldlM renameEntry (names, heap) = .ok (names.drop hs.length, ((absHapSet hs).zip names).foldl mRenameEntry heap) := by
+    hs.foldlM renameEntry (rnPack names heap) = .ok (rnPack (names.drop hs.length) (((absHapSet hs).zip names).foldl mRenameEntry heap)) := by
   induction hs generalizing names heap with
   | nil => rfl
   | cons e hs ih =>
@@ -616,9 +625,9 @@ theorem foldlM_renameEntry (hs : PyRt.HapSet) (hn : HapNamed hs) (names : List S
     | nil => simp at hl
     | cons nm rest =>
       rw [List.foldlM_cons]
-      have h1 : renameEntry (nm :: rest, heap) (k, ids) = .ok (rest, ids.foldl (mRenameOne (k.getD []) nm) heap) := by
+      have h1 : renameEntry (rnPack (nm :: rest) heap) (k, ids) = .ok (rnPack rest (ids.foldl (mRenameOne (k.getD []) nm) heap)) := by
         unfold renameEntry
-        simp only [pop_zero_cons, renameIds_named k ids (hn (k, ids) (by simp)), bind, Except.bind]
+        simp only [rnNames_pack, rnHeap_pack, pop_zero_cons, renameIds_named k ids (hn (k, ids) (by simp)), bind, Except.bind]
       rw [h1]
       simp only [bind, Except.bind]
       rw [ih (fun e he => hn e (by simp [he])) rest (by simpa using hl)]
